@@ -347,3 +347,17 @@ def norm_case(ctx, alg, iso, cfg, name):
     if st3 == 'ok' and elem_diff(mv_dict(un), {0: 1.0}, tol=1e-9):
         ctx.violation('normalized(x) does not have squared norm 1', cid + ['normalized'], normalized=show_elem(mv_dict(unit)),
                       its_normsq=show_elem(mv_dict(un)), **wit)
+    # the same object after an in-place coefficient update (what a widget drag or x[...] = ... does): norm, normsq and normalized
+    # describe the coefficients it holds now, i.e. equal those of a fresh multivector built from them
+    f = rng.choice((2.0, 0.5, -3.0))
+    xv = x.values()
+    for j in range(len(xv)):
+        xv[j] = xv[j] * f
+    fresh = gen.mv_from(alg, keys, [v * f for v in vals])
+    st4, o4 = ctx.guarded(TO, lambda: (x.norm(), x.normsq(), x.normalized(), fresh.norm(), fresh.normsq(), fresh.normalized()))
+    if st4 == 'ok':
+        ctx.count('norm_after_inplace_update_compared')
+        for nm, a, b in zip(('norm', 'normsq', 'normalized'), o4[:3], o4[3:]):
+            if elem_diff(mv_dict(a), mv_dict(b), tol=1e-9):
+                ctx.violation(f'{nm}() after an in-place coefficient update differs from {nm}() of a fresh multivector with the same coefficients',
+                              cid + ['inplace', nm], factor=f, on_updated_object=show_elem(mv_dict(a)), on_fresh_object=show_elem(mv_dict(b)), **wit)
